@@ -545,6 +545,8 @@ func main() {
 		genDec(g, w, *n, maxLen, []string{"mul", "sqr", "div", "div", "divW", "shl", "shr", "add", "sub", "mulAddWW"}, false)
 	case "muldiv":
 		genDec(g, w, *n, maxLen, []string{"mul", "sqr", "div", "div"}, false)
+	case "divrec":
+		genDivRec(g, w, *n)
 	case "decpoison":
 		genDec(g, w, *n, maxLen, []string{"mul", "sqr", "div", "div", "divW"}, true)
 	case "shared":
@@ -619,5 +621,65 @@ func doReplay(path string, w *bufio.Writer) {
 			decimal.VerifSetThresholds(ok, ob, os_)
 			fmt.Fprintf(w, "K dec %s %d %d %d %d | %s | %s | %s | %s | %s\n", op, kt, bt, st, s, ws(x), ws(y), ws(q), ws(r), msg)
 		}
+	}
+}
+
+// genDivRec stresses the recursive division (divisors of at least divRecursiveThreshold = 100
+// words): lengths around the block boundaries (len(u)-len(v) vs len(v)/2), adversarial words,
+// near-equal leading parts, exact multiples.
+func genDivRec(g *gen, w *bufio.Writer, n int) {
+	for i := 0; i < n; i++ {
+		ly := 100 + g.r.Intn(260)
+		if g.r.Intn(4) == 0 {
+			ly = 100 + g.r.Intn(40)
+		}
+		hb := ly / 2
+		var lx int
+		switch g.r.Intn(6) {
+		case 0:
+			lx = ly + hb // m == B: only the final block
+		case 1:
+			lx = ly + hb + 1
+		case 2:
+			lx = ly + hb - 1
+		case 3:
+			lx = ly + 2*hb + g.r.Intn(3) - 1
+		case 4:
+			lx = ly + g.r.Intn(ly+2)
+		default:
+			lx = ly + g.r.Intn(3*hb+2)
+		}
+		y := g.nvec(ly)
+		x := g.nvec(lx)
+		switch g.r.Intn(5) {
+		case 0: // leading parts equal
+			k := 1 + g.r.Intn(ly)
+			copy(x[lx-k:], y[ly-k:])
+		case 1: // divisor with extreme words
+			for j := range y {
+				if g.r.Intn(3) == 0 {
+					y[j] = []Word{0, B - 1, 1, B / 2}[g.r.Intn(4)]
+				}
+			}
+			if y[ly-1] == 0 {
+				y[ly-1] = 1
+			}
+		case 3: // all low divisor words maximal: the part of v dropped by the block estimate is as large as it can be
+			for j := 0; j < ly-1; j++ {
+				y[j] = B - 1
+				if g.r.Intn(40) == 0 {
+					y[j] = Word(g.r.Uint64() % B)
+				}
+			}
+			y[ly-1] = []Word{B / 2, B/2 + 1, B - 1, B / 10, 1, 2, 5000000000000000000}[g.r.Intn(7)]
+		case 2: // exact multiple
+			q := g.nvec(1 + g.r.Intn(hb+3))
+			p, _, _ := runDec("mul", nil, q, y, 0)
+			x = p
+		}
+		xin := append([]Word(nil), x...)
+		yin := append([]Word(nil), y...)
+		q, r, msg := runDec("div", nil, x, y, 0)
+		fmt.Fprintf(w, "K dec div 30 10 50 0 | %s | %s | %s | %s | %s\n", ws(xin), ws(yin), ws(q), ws(r), msg)
 	}
 }
